@@ -41,7 +41,9 @@ for s in sites:
     elif k=="pow" and f.endswith("expression_impl.rs"):
         e=D("C16_field_never_panics","modular_arithmetic::pow = BigInt::modpow(exp, field): panics for a negative exponent or a zero modulus; the operands are reduced field elements and the field is one of the three primes (Model.Field.pow mirrors it; panics are compared as output values by the C16 run)")
     if e is not None:
-        e["text"]=s["text"]; e["shape"]=s["shape"]; M[s["key"]]=e
+        e["text"]=s["text"]; e["shape"]=s["shape"]
+        if s.get("core"): e["core"]=s["core"]
+        M[s["key"]]=e
         continue
     # ---- third audit: the files anchored since the scan covers the whole crate set ----
     if f.endswith("abstract_syntax_tree/ast.rs"):
@@ -102,7 +104,7 @@ for s in sites:
         elif fn.endswith("take_function"): e=G("caching succeeded","`?` returned on a failed cache_function, which otherwise leaves the entry in the map",guard_text="self.cache_function(name)?;")
         else: e=G("not called","AnalysisContext::underlying_str is implemented here but no non-test code of the workspace calls it",uncalled="underlying_str")
     elif f.endswith("signal_assignments.rs"):
-        e=G("prefix length","added by the repair of the partial-access defect (/repo 4f017e8): both slices are `[..n]` with n = min(used.len(), access.len()), computed on the line before, so n is within both vectors",guard_text="let n = used.len().min(access.len());")
+        e=G("prefix length","added by the repair of the partial-access defect (/repo 4f017e8, amended in 96648cc: the comparison now sits in the closure `mentions`): both slices are `[..n]` with n = min(used.len(), access.len()), computed on the line before, so n is within both vectors",guard_text="let n = used.len().min(access.len());")
     elif f.endswith("bn254_specific_circuit.rs") or f.endswith("unused_output_signal.rs"):
         e=G("full-range slice","`[..]` cannot be out of range",site_is="[..]")
     elif f.endswith("definition_complexity.rs"):
@@ -195,6 +197,7 @@ for s in sites:
     elif f.endswith("writers.rs"):
         e=X("fails only when stdout cannot be written (closed pipe, full disk): run-time environment, DESIGN §5.3; termcolor/codespan internals are observed only")
     assert e is not None, s["key"]
+    if s.get("core"): e["core"]=s["core"]
     e["text"]=s["text"]; e["shape"]=s["shape"]      # secondary hints (third audit): line text for the reader, statement shape for the check
     M[s["key"]]=e
 # second audit: the sites that the content-carrying lifting mirror Model.LiftFull has (renaming on the real tree, lifting,
